@@ -494,6 +494,23 @@ ELEMENT_CONTRACTS = {
             200 + L[0], 200 + L[0] % 2] + (
             [200 + (1 - L[0] % 2)] if any(
                 x % 2 != L[0] % 2 for x in L) else [])}),
+    # keys that are null are keys like any other: computed once
+    'orderBy-null-keys': (
+        '$c.orderBy(tick($, switch($ mod 2 = 0 => null, true => $)))',
+        lambda L, o: {0: ('set', L)}),
+    'orderBy-all-null-keys': ('$c.orderBy(tick($, null))',
+                              lambda L, o: {0: ('set', L)}),
+    'orderBy-falsy-keys': (
+        "$c.orderBy(tick($, [0, null, 0.0][$ mod 3]))",
+        lambda L, o: {0: ('set', L)}),
+    # join streams its receiver: the lambdas of a lazy receiver run for the
+    # elements that were consumed
+    'join-lazy-receiver-first': (
+        '$c.select(tick($, $)).join([7, 8], true, [$1, $2]).first(null)',
+        lambda L, o: {0: ('prefix', L, min(1, len(L)))}),
+    'join-lazy-receiver-take': (
+        '$c.select(tick($, $)).join([7, 8], true, [$1, $2]).take(3)',
+        lambda L, o: {0: ('prefix', L, min(2, len(L)))}),
     'max-min-sum': ('[$c.sum(0), $c.max(0), $c.min(0)]', lambda L, o: {}),
     'dict-comprehension': ('dict($c.select([tick($, $), tick(100 + $, 1)]))',
                            lambda L, o: {0: L, 100: L}),
